@@ -7,6 +7,6 @@ for mode in without with; do
   cp -r /repo/c/include /repo/c/lib $D/c/; cp -r /repo/python/digital_rf /repo/python/lib $D/python/
   if [ $mode = with ]; then (cd $D && patch -p1 -s < $S/patch.diff) || { echo "patch failed"; rm -rf $D; continue; }; fi
   /verif/tools/build_overlay.sh $D $D/.ov >/dev/null 2>&1
-  (cd $S && PYTHONPATH=$D/.ov timeout 600 /venv/bin/python demo.py >/tmp/seeddemo.out 2>&1); echo "$mode patch: demo exit $? ($(tail -1 /tmp/seeddemo.out | cut -c1-120))"
+  (cd $S && PYTHONPATH=$D/.ov timeout 600 /venv/bin/python demo.py >$D/demo.out 2>&1); echo "$mode patch: demo exit $? ($(tail -1 $D/demo.out | cut -c1-120))"
   rm -rf $D
 done
